@@ -354,6 +354,16 @@ def run(ck: Check):
             c["metadata_max_age_ms"] = 100
         sc["cluster_events"] = [{"at": round(1.5 + dt, 3), "op": "add_partitions", "topic": "t0", "n": 1}]
         scs.append(sc)
+    # ... and while the leader's SyncGroup is in flight (slow SyncGroup round trip, short metadata age): the leader has
+    # computed the assignment from the old partition count and learns of the growth before the reply arrives
+    for j, dt in enumerate([x * 0.04 for x in range(-2, 28)]):
+        sc = base(f"grow-slow-sync-{j}", {}, auto_commit=bool(j % 2))
+        for c in sc["consumers"]:
+            c["cb_delay"] = 0.01
+            c["metadata_max_age_ms"] = 100
+        sc["api_latency"] = {"SyncGroup": [0.4, 0.25][j % 2]}
+        sc["cluster_events"] = [{"at": round(1.5 + dt, 3), "op": "add_partitions", "topic": "t0", "n": 2}]
+        scs.append(sc)
     # static membership (group_instance_id, JoinGroup v5): every subset of three members is static, each assignor;
     # in half of the runs a static member is killed and a new process with the same group.instance.id takes over
     nstatic = 0
